@@ -61,7 +61,14 @@ Definition base_ok (opt : label -> oclass) (w : world) : Prop :=
    ESRCH/ENOENT for a live process (psutil/_pslinux.py says so) at any moment *)
 Definition opt_none (l : label) : oclass := Strict.
 Definition opt_race (l : label) : oclass :=
-  match l_file l with FFdE => MayVanishOrInval | FFdinfoE | FTaskStatE | FRollup => MayVanish | _ => Strict end.
+  match l_file l with
+  | FFdE => MayVanishOrInval
+  | FFdinfoE | FTaskStatE | FRollup => MayVanish
+  (* files outside procfs: a "(deleted)" path normally does not exist, a target may be unlinked
+     (a /dev node unlinked during get_terminal_map's scan is not in the fault model: FDevE is strict) *)
+  | FExeDel | FCwdDel | FTargetDelE | FTargetE | FMapPathE | FGuessExe => MayVanish
+  | _ => Strict
+  end.
 (* kernel thread / zombie: in addition the exe and cwd links report ENOENT while the process is listed *)
 Definition opt_links (l : label) : oclass :=
   match l_file l with FExe | FCwd => MayVanish | _ => opt_race l end.
